@@ -153,7 +153,7 @@ def run_shard(mode, n, firsts, sub_seed):
                     pool = WorldPool(scratch, contents, DOCS, depth=rng.choice([1, 2, 5]), width=rng.choice([1, 3, 4]),
                                      algo=rng.choice(STORE_ALGOS), store_dir=sd)
                 ops = []
-                pids = PIDS + ["r"]
+                pids = PIDS + ["r", "\u00e9t\u00e9.\u65e5\u672c"]     # (one pid whose UTF-8 length differs from its str length)
                 fmts = [None, "f1", "http://ns/x"]
                 for _ in range(40):
                     if rng.random() < 0.25:
@@ -174,7 +174,7 @@ def replay(witness):
     res = ShardResult()
     scratch = new_scratch("c05r")
     contents = {k: make_content(v["cseed"], v["size"]) for k, v in witness["contents"].items()}
-    w = World(scratch, contents, DOCS, pids=PIDS + ["r"], fmts=[None, "f1", "http://ns/x"])
+    w = World(scratch, contents, DOCS, pids=PIDS + ["r", "\u00e9t\u00e9.\u65e5\u672c"], fmts=[None, "f1", "http://ns/x"])
     before = None
     for i, op in enumerate(witness["ops"]):
         out, findings, _b, before = w.step(op, i, before=before)
